@@ -208,9 +208,44 @@ func sysEW(prop string, r *rng, emit func(string)) {
 	}
 }
 
+// sizeEW: lengths around the block sizes of unrolled / vectorised loops (remainders of 2, 4, 8, 16,
+// 32, 64) and shapes of rank 5 and 6, for one operation of each family per mode.
+func sizeEW(prop string, emit func(string)) {
+	var ops []string
+	switch prop {
+	case "C06":
+		ops = []string{"bin:add:0:1:safe", "bin:mul:0:1:safe", "bin:sub:0:1:safe", "bins:mul:0:3:left:safe", "bins:sub:0:3:right:safe", "bin:max:0:1:safe"}
+	case "C07":
+		ops = []string{"bin:add:0:1:unsafe", "bin:sub:0:1:reuse.2", "bin:mul:0:1:incr.2", "bins:add:0:3:left:unsafe", "bins:mul:0:3:right:incr.2", "un:neg:0:reuse.2"}
+	case "C11":
+		ops = []string{"cmp:lt:0:1:bool:safe", "cmp:gte:0:1:same:safe", "cmps:eq:0:9:left:bool:safe", "cmp:ne:0:1:same:reuse.2"}
+	case "C12":
+		ops = []string{"un:neg:0:safe", "un:square:0:safe", "un:abs:0:unsafe", "un:cube:0:incr.2", "un:sign:0:reuse.2"}
+	}
+	for _, dt := range []string{"f64", "f32", "i"} {
+		for _, n := range []int{1, 2, 3, 4, 5, 7, 8, 9, 15, 16, 17, 31, 32, 33, 63, 64, 65} {
+			for _, o := range ops {
+				if dt == "i" && n > 17 {
+					continue
+				}
+				emit(fmt.Sprintf("prog %s new:rm:%d:-3;new:rm:%d:2;new:rm:%d:40;%s", dt, n, n, n, o))
+			}
+		}
+		for _, sh := range []string{"2,1,2,1,2", "1,2,2,2,2", "2,2,1,2,1,2", "3,1,1,1,2"} {
+			for _, o := range ops {
+				emit(fmt.Sprintf("prog %s new:rm:%s:-3;new:rm:%s:2;new:rm:%s:40;%s", dt, sh, sh, sh, o))
+				if dt == "f64" {
+					emit(fmt.Sprintf("prog %s new:cm:%s:-3;new:rm:%s:2;T:1:_;T:1:_;new:rm:%s:40;%s", dt, sh, sh, sh, o))
+				}
+			}
+		}
+	}
+}
+
 func genEW(prop, tier string, r *rng, emit func(string)) {
 	thorough := tier == "thorough"
 	sysEW(prop, r, emit)
+	sizeEW(prop, emit)
 	n := 7000
 	if thorough {
 		n = 120000
